@@ -237,6 +237,7 @@ type event =
 | EvTopicRet of oid * bool
 | EvBcastEnd of aid * nat
 | EvIdentity of aid * bool
+| EvAbandon of oid
 
 val dec_bool : nat -> bool
 
